@@ -7,6 +7,7 @@ import (
 	"strings"
 
 	"gorm.io/gorm"
+	"gorm.io/gorm/schema"
 )
 
 // ---- models -----------------------------------------------------------------
@@ -21,10 +22,16 @@ type User struct {
 	Co     Co       // belongs to, struct field, non-pointer key column
 	Items  []Item   `gorm:"foreignKey:UserID"` // has many, struct elements, non-pointer key column
 	SItems []*SItem `gorm:"foreignKey:UserID"` // has many, pointer elements, soft-delete target
-	Pet    Pet      `gorm:"foreignKey:UserID"` // has one, struct field
-	Tags   []Tag    `gorm:"many2many:user_tags"`
-	Toys   []Toy    `gorm:"polymorphic:Owner"`                      // polymorphic has many
-	Badge  *Badge   `gorm:"polymorphic:Owner;polymorphicValue:usr"` // polymorphic has one, pointer field, type value chosen by the application
+	// two more relations to the records of SItems, through key columns of their own (a user's top item: has
+	// one; a user's favourite item: belongs to): gorm saves them BEFORE SItems when a value is saved with
+	// all its relations (Session{FullSaveAssociations: true}); see relSpec.others
+	TopSItem   *SItem `gorm:"foreignKey:TopUserID"`
+	FavSItemID *int64
+	FavSItem   *SItem `gorm:"foreignKey:FavSItemID"`
+	Pet        Pet    `gorm:"foreignKey:UserID"` // has one, struct field
+	Tags       []Tag  `gorm:"many2many:user_tags"`
+	Toys       []Toy  `gorm:"polymorphic:Owner"`                      // polymorphic has many
+	Badge      *Badge `gorm:"polymorphic:Owner;polymorphicValue:usr"` // polymorphic has one, pointer field, type value chosen by the application
 	// belongs to a record whose (single, string) key is assigned by the application
 	MedalCode *string
 	Medal     *Medal `gorm:"foreignKey:MedalCode;references:Code"`
@@ -134,6 +141,7 @@ type SItem struct {
 	ID        int64 `gorm:"primaryKey"`
 	Name      string
 	UserID    *int64
+	TopUserID *int64 // key column of User.TopSItem
 	DeletedAt gorm.DeletedAt
 }
 
@@ -168,6 +176,10 @@ type Org struct {
 	K2    string `gorm:"primaryKey"`
 	Name  string
 	Parts []*Part `gorm:"many2many:org_parts"` // pointer elements
+	// belongs to one of the records Parts links as well (saved before Parts in a full save)
+	MainP1 *string
+	MainP2 *string
+	Main   *Part `gorm:"foreignKey:MainP1,MainP2;references:P1,P2"`
 }
 
 type Part struct {
@@ -209,6 +221,9 @@ type Author struct {
 	ID    int64 `gorm:"column:author_no;primaryKey;autoIncrement"`
 	Name  string
 	Books []*Book `gorm:"many2many:author_books"`
+	// belongs to one of the records Books links as well (saved before Books in a full save)
+	FavBookID *int64 `gorm:"column:fav_book_no"`
+	FavBook   *Book  `gorm:"foreignKey:FavBookID"`
 }
 
 type Book struct {
@@ -283,6 +298,15 @@ type relSpec struct {
 	// have a database-assigned primary key, which loaded values carry (looked up with raw SQL)
 	oSurr, tSurr *kf
 	surr         map[string]int64 // cache of the look-ups of one case
+	// others: further relation fields of the owner model that point to records of the SAME target model through
+	// key columns of their own (pointer fields; the relation field of the kind holds pointers too, so one value
+	// can be held by both). A full save stores them before the relation of the kind.
+	others []other
+}
+
+type other struct {
+	field string
+	kind  schema.RelationshipType
 }
 
 var idKey = []kf{{"ID", "id", true}}
@@ -312,6 +336,7 @@ var specs = []*relSpec{
 		recSQL:  "SELECT CAST(id AS TEXT), name, 0 FROM items"},
 	{name: "has_many_soft", field: "SItems", store: fkTarget, soft: true, ownerT: reflect.TypeOf(User{}), targetT: reflect.TypeOf(SItem{}), ownerTab: "users", targetTab: "s_items",
 		fks:     []kf{{"UserID", "user_id", true}},
+		others:  []other{{"TopSItem", schema.HasOne}, {"FavSItem", schema.BelongsTo}},
 		tables:  []string{"users", "s_items"},
 		linkSQL: "SELECT CAST(id AS TEXT), 'users:' || user_id FROM s_items WHERE user_id IS NOT NULL AND deleted_at IS NULL",
 		recSQL:  "SELECT CAST(id AS TEXT), name, deleted_at IS NOT NULL FROM s_items"},
@@ -349,6 +374,7 @@ var specs = []*relSpec{
 	{name: "many2many_composite", field: "Parts", store: joinRows, composite: true, assigned: true, ownerT: reflect.TypeOf(Org{}), targetT: reflect.TypeOf(Part{}), ownerTab: "orgs", targetTab: "parts",
 		okeys: []kf{{"K1", "k1", false}, {"K2", "k2", false}}, tkeys: []kf{{"P1", "p1", false}, {"P2", "p2", false}},
 		jt: "org_parts", jtO: []string{"org_k1", "org_k2"}, jtT: []string{"part_p1", "part_p2"},
+		others:  []other{{"Main", schema.BelongsTo}},
 		pools:   []poolSet{{"colliding", ownerPoolC, targetPoolC}, {"collision_free", ownerPoolFree, targetPoolFree}},
 		tables:  []string{"orgs", "parts", "org_parts"},
 		linkSQL: "SELECT part_p1 || '" + ksep + "' || part_p2, 'orgs:' || org_k1 || '" + ksep + "' || org_k2 FROM org_parts",
@@ -418,6 +444,7 @@ var specs = []*relSpec{
 	{name: "many2many_renamed_pk", field: "Books", store: joinRows, group: "authors", noNewKey: true, ownerT: reflect.TypeOf(Author{}), targetT: reflect.TypeOf(Book{}), ownerTab: "authors", targetTab: "books",
 		okeys: []kf{{"ID", "author_no", true}}, tkeys: []kf{{"ID", "book_no", true}},
 		jt:     "author_books", // (join columns: resolveJoin)
+		others: []other{{"FavBook", schema.BelongsTo}},
 		tables: []string{"authors", "books", "author_books"},
 		recSQL: "SELECT CAST(book_no AS TEXT), name, 0 FROM books"},
 }
@@ -468,6 +495,35 @@ func (s *relSpec) resolveJoin(db *gorm.DB) error {
 		}
 	}
 	s.linkSQL = "SELECT " + keyExpr(s.jtT...) + ", '" + s.ownerTab + ":' || " + keyExpr(s.jtO...) + " FROM " + s.jt
+	return nil
+}
+
+// checkOthers: the further relation fields (others) are parsed as what the workload takes them for.
+func (s *relSpec) checkOthers(db *gorm.DB) error {
+	if len(s.others) == 0 {
+		return nil
+	}
+	stmt := &gorm.Statement{DB: db}
+	if err := stmt.Parse(reflect.New(s.ownerT).Interface()); err != nil {
+		return err
+	}
+	main := stmt.Schema.Relationships.Relations[s.field]
+	for _, o := range s.others {
+		rel := stmt.Schema.Relationships.Relations[o.field]
+		if rel == nil || rel.Type != o.kind || rel.FieldSchema != main.FieldSchema || rel.Field.FieldType.Kind() != reflect.Ptr {
+			return fmt.Errorf("%s.%s is not parsed as a %s relation to %s held by pointer: %+v", s.ownerT.Name(), o.field, o.kind, s.targetT.Name(), rel)
+		}
+		for _, ref := range rel.References {
+			for _, mref := range main.References {
+				if ref.ForeignKey == mref.ForeignKey {
+					return fmt.Errorf("%s.%s shares the key column %s with %s", s.ownerT.Name(), o.field, ref.ForeignKey.DBName, s.field)
+				}
+			}
+		}
+	}
+	if et := main.Field.IndirectFieldType.Elem(); et.Kind() != reflect.Ptr {
+		return fmt.Errorf("%s.%s does not hold pointers", s.ownerT.Name(), s.field)
+	}
 	return nil
 }
 
@@ -699,6 +755,17 @@ func (s *relSpec) readPairs(q string) map[string]map[string]int {
 		out[o][t]++
 	}
 	must(rows.Err())
+	return out
+}
+
+// readRawFK (belongs to): the key column(s) of every owner row as stored (NULL parts shown as <null>).
+func (s *relSpec) readRawFK() map[string]string {
+	out := map[string]string{}
+	for o, set := range s.readPairs("SELECT " + keyExpr(kcols(s.fks)...) + ", '" + s.ownerTab + ":' || " + keyExpr(kcols(s.okeys)...) + " FROM " + s.ownerTab) {
+		for raw := range set {
+			out[o] = raw
+		}
+	}
 	return out
 }
 
